@@ -60,6 +60,7 @@ inductive NameSource where
   | walkPerCall      -- walks the class dictionaries on every call; nothing is kept on the class
   | ownTable         -- a table kept on the class, looked up in the class's OWN dictionary only
   | inheritedTable   -- a table kept on the class, found by attribute lookup (finds a PARENT's table)
+  | walkFiltered     -- walks per call, but NOT every class of the MRO (a predicate / slice / `continue` on the class)
   | unknown          -- some other state outside the object (not recognised)
   deriving DecidableEq, Repr
 
